@@ -318,14 +318,18 @@ def _exact_root(v, k):
         return None
 
     def iroot(n):
+        if n < 2:
+            return n
         if k == 2:
             r = math.isqrt(n)
         else:
-            r = round(n ** (1.0 / k))
-            while r ** k > n:
-                r -= 1
-            while (r + 1) ** k <= n:
-                r += 1
+            # integer Newton iteration for floor(n ** (1/k))
+            r = 1 << ((n.bit_length() + k - 1) // k)
+            while True:
+                y = ((k - 1) * r + n // r ** (k - 1)) // k
+                if y >= r:
+                    break
+                r = y
         return r if r ** k == n else None
     a, b = iroot(v.numerator), iroot(v.denominator)
     if a is None or b is None:
